@@ -395,6 +395,92 @@ func checkC18(c *Ctx) {
 		if n < 2 {
 			r.Unk("C18.2", "phantomLookup: two cache-hit returns", f.Pos(), fnName(f), fmt.Sprintf("found %d", n))
 		}
+		// the caller takes "live, or any error" as an answer from the cache: so phantomLookup answers (false, nil) unless
+		// one of the caches had a hit - every return that can carry true or a non-nil error is dominated by a Lookup hit
+		missOK := true
+		var where token.Pos
+		eachInstr(f, func(in ssa.Instruction) {
+			ret, ok := in.(*ssa.Return)
+			if !ok || len(ret.Results) != 2 || ret.Block().Comment == "recover" {
+				return
+			}
+			v0, isC0 := constOf(returnedValue(ret, 0, nil))
+			e1, isC1 := returnedValue(ret, 1, nil).(*ssa.Const)
+			plainMiss := isC0 && v0.String() == "false" && isC1 && e1.Value == nil
+			if plainMiss {
+				return
+			}
+			if !guardedM(f, ret, func(cnd string, pol bool) bool { return pol && strings.Contains(cnd, ".Lookup(addr)") }) {
+				missOK = false
+				where = ret.Pos()
+			}
+		})
+		r.Check(missOK, "C18.2", "phantomLookup: answers (false, nil) unless a cache had a hit", where, fnName(f), "every other return is dominated by a Lookup hit",
+			"phantomLookup can return a verdict or an error without a hit in either cache (an expired or evicted entry, a remembered failure): PhantomIsLive takes any error as 'answered from the cache' and serves it without probing - an expired verdict is served, or flipped to 'not live'")
+	}
+
+	// ---- C18.6 the caches a tester answers from are the ones built from ITS configuration: liveness.New hands out a
+	// tester allocated in that call (a tester found in a registry of earlier testers carries the capacity and lifetime
+	// of whatever configuration it was first built for)
+	r.Rule("C18.6", "liveness.New returns a tester allocated by that call", 1)
+	if f := c.fn("C18.6", lv, "", "New"); f != nil {
+		nRet := 0
+		eachInstr(f, func(in ssa.Instruction) {
+			ret, ok := in.(*ssa.Return)
+			if !ok || len(ret.Results) != 2 || ret.Block().Comment == "recover" {
+				return
+			}
+			v := stripConv(returnedValue(ret, 0, nil))
+			if cst, isC := v.(*ssa.Const); isC && cst.Value == nil {
+				return
+			}
+			nRet++
+			fresh := false
+			var chk func(v ssa.Value, d int) bool
+			chk = func(v ssa.Value, d int) bool {
+				if d > 4 {
+					return false
+				}
+				switch x := stripConv(v).(type) {
+				case *ssa.Alloc:
+					return true
+				case *ssa.Phi:
+					for _, e := range x.Edges {
+						if !chk(e, d+1) {
+							return false
+						}
+					}
+					return len(x.Edges) > 0
+				case *ssa.Call:
+					// a constructor of the package: its own returns
+					if hc := helperCallee(f, &x.Call); hc != nil {
+						okAll, n := true, 0
+						eachInstr(hc, func(in2 ssa.Instruction) {
+							if r2, ok := in2.(*ssa.Return); ok && len(r2.Results) > 0 {
+								rv := stripConv(returnedValue(r2, 0, nil))
+								if cst, isC := rv.(*ssa.Const); isC && cst.Value == nil {
+									return
+								}
+								n++
+								if _, isA := rv.(*ssa.Alloc); !isA {
+									okAll = false
+								}
+							}
+						})
+						return okAll && n > 0
+					}
+				case *ssa.Extract:
+					return chk(x.Tuple, d+1)
+				}
+				return false
+			}
+			fresh = chk(v, 0)
+			r.Check(fresh, "C18.6", "New: the returned tester is allocated in this call", ret.Pos(), fnName(f), firstN(pathOf(v), 60),
+				"liveness.New hands out a tester it did not build in this call ("+firstN(pathOf(v), 50)+"): its caches were sized and aged by another configuration, so the configured capacity does not bound them and evicted / expired entries of the other configuration are served")
+		})
+		if nRet == 0 {
+			r.Unk("C18.6", "New: returns", f.Pos(), fnName(f), "no return with a tester found")
+		}
 	}
 
 	// ---- C18.3 sibling wiring
